@@ -16,6 +16,7 @@ pub fn n_threads() -> usize {
         .ok()
         .and_then(|s| s.parse().ok())
         .unwrap_or_else(|| std::thread::available_parallelism().map(|n| n.get()).unwrap_or(4))
+        .max(1)
 }
 
 /// Run `f(i)` for i in 0..n on all cores (dynamic chunks), results in index order.
@@ -119,7 +120,8 @@ where
     let t0 = std::time::Instant::now();
     let tr0 = c.transitions.load(std::sync::atomic::Ordering::Relaxed);
     let nparts = (n_threads() * 4).min(bases.len());
-    let crashes = crate::isolate::fork_map(c, nparts, std::time::Duration::from_secs(sweep_timeout_s()), |part, cc| {
+    let timeout = std::time::Duration::from_secs(if c.thorough() { sweep_timeout_s() } else { sweep_timeout_s().min(600) });
+    let body = |part: usize, cc: &Collector| {
         let mut local = Local::default();
         let mut i = part;
         let mut sampled = 0;
@@ -161,8 +163,38 @@ where
             i += nparts;
         }
         local.flush(cc);
-    });
+    };
+    let crashes = crate::isolate::fork_map(c, nparts, timeout, &body);
+    let mut reruns = 0;
     for cr in crashes {
+        // C01 owns "no abort, no unbounded loop": there an abnormal worker end that reproduces when
+        // the partition is run again alone is the verdict; everywhere else (and when it does not
+        // reproduce) it is a machinery error
+        if c.property == "C01" && reruns < 3 {
+            if let Some(part) = cr.last_part {
+                reruns += 1;
+                let scratch = Collector::new(&c.property, &c.tier);
+                let again = crate::isolate::fork_map(&scratch, 1, timeout, |_, cc| body(part, cc));
+                if let Some(a) = again.first() {
+                    let b = &bases[part.min(bases.len() - 1)];
+                    c.violation(crate::report::Violation {
+                        property: "C01".into(),
+                        engine: "E5.api.sweep".into(),
+                        sig: format!("worker-abnormal-end|{}", if a.how.contains("timeout") { "hang (watchdog)".to_string() } else { a.how.clone() }),
+                        columns: b.columns,
+                        lines: b.lines,
+                        script: b.script.clone(),
+                        op: None,
+                        detail: format!(
+                            "a worker applying direct API calls ended abnormally twice ({}; then {}) in partition {} of {} (base states {}, {}+{}, ...); the script shown reaches the first base state of that partition",
+                            cr.how, a.how, part, nparts, part, part, nparts
+                        ),
+                        extra: serde_json::json!({"partition": part, "partitions": nparts}),
+                    });
+                    continue;
+                }
+            }
+        }
         c.crash(format!("sweep worker {} ended abnormally ({}), last partition {:?}", cr.child, cr.how, cr.last_part));
     }
     if std::env::var("VERIF_VERBOSE").is_ok() {
